@@ -55,6 +55,7 @@ class Ctx:
         self.exiting = set()   # DoDoers inside their own exit (their doers' exit contexts may call back)
         self.fresh = {}        # id -> callable giving a NEW object equal to the doer (a freshly accessed bound method)
         self.skew = []         # (kind, id, own view of tyme, Doist's tyme) where they differ
+        self.temps = []        # (id, the temp value the doer's enter context was given)
 
     def idof(self, o, default=-1):
         for i, v in self.objs.items():
@@ -182,6 +183,7 @@ def _build(ctx, i):
         class PlainDoer(doing.Doer):
             def enter(self, *, temp=None):
                 ctx.ev("Enter", i)
+                ctx.temps.append((i, temp))
                 self.pc = 1
                 stp = ctx.step(script, 0)
                 ctx.effects(i, stp["es"])
@@ -224,6 +226,7 @@ def _build(ctx, i):
         class GenDoer(doing.Doer):
             def enter(self, *, temp=None):
                 ctx.ev("Enter", i)
+                ctx.temps.append((i, temp))
             def recur(self, tock=None):
                 pc = 0
                 while True:
@@ -259,6 +262,7 @@ def _build(ctx, i):
             done = None
             try:
                 ctx.ev("Enter", i)
+                ctx.temps.append((i, temp))
                 pc = 0
                 while True:
                     stp = ctx.step(script, pc)
@@ -339,11 +343,13 @@ def run_prog(prog):
             return r
     ctor = bool(prog.get("ctor"))
     called = prog.get("mode") == "call"     # run through the callable form doist(doers, limit, tyme)
+    tp = prog.get("temp")                   # [the Doist's own temp, the temp given to the first run] or None
+    tkw = {"temp": tp[0]} if tp else {}
     if called:
         # limit and start tyme are then given to the call, not to the constructor
-        doist = BudgetDoist(tock=prog["tock"], real=False, tyme=0.0 if prog["tyme"] else 1.0)
+        doist = BudgetDoist(tock=prog["tock"], real=False, tyme=0.0 if prog["tyme"] else 1.0, **tkw)
     else:
-        doist = BudgetDoist(tock=prog["tock"], limit=prog["limit"], real=False, tyme=prog["tyme"])
+        doist = BudgetDoist(tock=prog["tock"], limit=prog["limit"], real=False, tyme=prog["tyme"], **tkw)
     ctx.doist = doist
     ctx.objs[0] = doist
     for i in sorted(int(k) for k in prog["defs"]):
@@ -358,6 +364,8 @@ def run_prog(prog):
     runs = [dict(doers=None if ctor else handed)]
     if called:
         runs[0].update(limit=prog["limit"], tyme=prog["tyme"])
+    if tp:
+        runs[0].update(temp=tp[1])
     for a in prog.get("again", []):
         kw = {}
         if a.get("limit") is not None:
@@ -483,6 +491,7 @@ def run_prog(prog):
         "skew": [list(x) for x in ctx.skew],
         "caller_doers_changed": list(handed) != handed_copy,
         "tock_end": float(doist.tock).hex(),
+        "temps": [[i, repr(t)] for i, t in ctx.temps],
         "dones_raw": [[i, repr(getattr(ctx.objs[i], "done", None))] for i in ids],
     }
 
